@@ -204,6 +204,7 @@ func runC10With(c C10Case, cs *kit.CaseStats, raw func(idx int, wire []byte) []b
 	if c.Mut.Kind != "" {
 		c.Mut.Msg = mod(c.Mut.Msg, len(kinds))
 	}
+	started := time.Now()
 	ctx, cancel := context.WithTimeout(context.Background(), c10Timeout)
 	defer cancel()
 
@@ -237,6 +238,12 @@ func runC10With(c C10Case, cs *kit.CaseStats, raw func(idx int, wire []byte) []b
 	if harness != "" {
 		return fmt.Errorf("HARNESS: %s", harness)
 	}
+	if ctx.Err() != nil && out.err != nil && out.violation == nil {
+		// the harness watchdog ended the call: no verdict
+		cs.Inconclusive("client call hit the harness watchdog")
+		return nil
+	}
+	diag := fmt.Sprintf(" [elapsed %v, watchdog %v]", time.Since(started).Round(time.Millisecond), ctx.Err())
 	label := "honest"
 	if c.Mut.Kind != "" {
 		label = fmt.Sprintf("msg%d/%s", c.Mut.Msg, c.Mut.Kind)
@@ -249,14 +256,14 @@ func runC10With(c C10Case, cs *kit.CaseStats, raw func(idx int, wire []byte) []b
 	case c.Mut.Kind == "" && raw == nil:
 		cs.Class(c.RPC + "/honest")
 		if out.err != nil {
-			return fmt.Errorf("non-vacuity: %s against the unmutated scripted host failed: %v", c.RPC, out.err)
+			return fmt.Errorf("non-vacuity: %s against the unmutated scripted host failed: %v%s", c.RPC, out.err, diag)
 		}
 	case !applied:
 		cs.Class("mutation-not-reached")
 	case !differs:
 		cs.Class("mutation-noop")
 		if out.err != nil && c.Mut.Kind != "close" && c.Mut.Kind != "rpc-error" && raw == nil {
-			return fmt.Errorf("non-vacuity: mutation %s left the bytes unchanged, yet %s failed: %v", label, c.RPC, out.err)
+			return fmt.Errorf("non-vacuity: mutation %s left the bytes unchanged, yet %s failed: %v%s", label, c.RPC, out.err, diag)
 		}
 	default:
 		cs.NonTrivial()
@@ -266,10 +273,6 @@ func runC10With(c C10Case, cs *kit.CaseStats, raw func(idx int, wire []byte) []b
 		} else {
 			cs.Class("outcome=rejected")
 		}
-	}
-	if ctx.Err() != nil && out.err != nil && out.violation == nil {
-		cs.Inconclusive("client call hit the harness watchdog")
-		return nil
 	}
 	if out.violation != nil {
 		return fmt.Errorf("%s with %s: %w", c.RPC, label, out.violation)
@@ -658,6 +661,23 @@ func TestC10Enum(t *testing.T) {
 						report(c, cs, c10Prop.SafeRun(c, cs))
 					}
 				}
+			}
+		}
+	}
+	// shape sweep: Merkle diff / range proofs depend on the tree shape, so the
+	// consistent-lie families are run for every contract size 2..9, every
+	// requested index and a few alternatives
+	for n := 2; n <= 9; n++ {
+		for idx := 0; idx < n; idx++ {
+			for a := 0; a < 3; a++ {
+				for k := 0; k < 2; k++ {
+					c := C10Case{RPC: "free", N: n, P: []int{k, idx, idx + 2, 0, 0, 0}, Mut: rhpc.Mut{Msg: 0, Kind: "lie-other-indices", A: a}}
+					cs := &kit.CaseStats{}
+					report(c, cs, c10Prop.SafeRun(c, cs))
+				}
+				c := C10Case{RPC: "roots", N: n, P: []int{idx, a, 0, 0, 0, 0}, Mut: rhpc.Mut{Msg: 0, Kind: "lie-other-range", A: idx + a}}
+				cs := &kit.CaseStats{}
+				report(c, cs, c10Prop.SafeRun(c, cs))
 			}
 		}
 	}
